@@ -56,6 +56,40 @@ Definition lq (fuel : nat) (R L : re) : option re :=
   | None => None
   end.
 
+(* ---------- inclusion of several languages in one, with ONE table, and the quotient check built on it:
+     quot2 fuel R L K = true -> forall w in R, w ++ t in L -> t in K
+   (same statement as RegexQuot.quot_auto; the residuals found at the nullable pairs are collected and their
+    inclusion in K is decided by a single shared exploration instead of one run of incl_auto per pair) ---------- *)
+Fixpoint alt_elems (r : re) : list re := match r with Alt a b => alt_elems a ++ alt_elems b | x => [x] end.
+(* every alternative of l occurs literally among the alternatives of k *)
+Definition alt_sub (l k : re) : bool :=
+  let ke := alt_elems k in forallb (fun x => is_empty x || existsb (re_eqb x) ke) (alt_elems l).
+Definition incl_many (fuel : nat) (ls : list re) (K : re) : bool :=
+  let k := norm K in
+  match filter (fun l => negb (alt_sub l k)) ls with
+  | [] => true
+  | ls' =>
+    let atoms := dedup (flat_map csets ls' ++ csets k) [] in
+    let reps := pick_reps atoms in
+    match explore reps fuel (map (fun l => (l, k)) ls') (PositiveMap.empty _) with
+    | Some tbl => reps_ok atoms reps && atoms_in atoms k && forallb (fun l => atoms_in atoms l && ok_pair tbl (l, k)) ls' && check reps tbl
+    | None => false
+    end
+  end.
+Fixpoint dedup_re (l acc : list re) : list re :=
+  match l with [] => acc | x :: l' => if existsb (re_eqb x) acc then dedup_re l' acc else dedup_re l' (x :: acc) end.
+Definition quot2 (fuel : nat) (R L K : re) : bool :=
+  let a := norm R in
+  let l := norm L in
+  let atoms := dedup (csets a ++ csets l) [] in
+  let reps := pick_reps atoms in
+  match qexplore reps fuel [(a, l)] (PositiveMap.empty _) with
+  | Some tbl =>
+      let Ks := dedup_re (lq_collect tbl) [] in
+      reps_ok atoms reps && atoms_in atoms a && atoms_in atoms l && seen tbl (a, l) && lqcheck reps Ks tbl && incl_many fuel Ks K
+  | None => false
+  end.
+
 (* ---------- what cannot follow a successful match, as a language ---------- *)
 Definition Kx2 (o : option re) (K : re) : re := match o with Some X => Alt K X | None => K end.
 Definition is_none {A} (o : option A) : bool := match o with Some _ => false | None => true end.
@@ -63,6 +97,56 @@ Definition is_none {A} (o : option A) : bool := match o with Some _ => false | N
 Section Cert.
 Variable G : grammar.
 Variable MX : rid -> option (nat * N).
+
+(* the certificate of UriComplete.v (same fragment, same conditions) with quot2 in place of quot_auto *)
+Fixpoint ccf_sor (sub : rid -> re -> bool) (subre : rid -> option (re * bool)) (fol : rid -> option cset) (rs : list rid) (K : re) : bool :=
+  match rs with
+  | [] => true
+  | r :: rs' => match subre r, subs_re subre rs' with
+                | Some (R, _), Some l => sub r K && quot2 CF R (Cat (fa (map fst l)) K) (Kx (fol r) K) && ccf_sor sub subre fol rs' K
+                | _, _ => false
+                end
+  end.
+Fixpoint ccf_repopt (sub : rid -> re -> bool) (o : option cset) (r : rid) (R : re) (k : nat) (K : re) : bool :=
+  match k with
+  | O => true
+  | S k' => let L := Cat (pow k' (Alt R Eps)) K in sub r L && quot2 CF R L (Kx o L) && ccf_repopt sub o r R k' K
+  end.
+Fixpoint ccf (n : nat) (r : rid) (K : re) : bool :=
+  match n with
+  | O => false
+  | S n' =>
+    match nth_error G r with
+    | None => false
+    | Some nd =>
+      match MX r with
+      | Some (w, mx) => Nat.eqb w 8 && (mx =? 255) && noprefix [(48, 57)] K
+      | None =>
+        match atom_re (nhead nd) with
+        | Some (Some _) => match nhead nd with HEof => incl_auto CF K Eps | _ => true end
+        | Some None => false
+        | None =>
+          match nhead nd, nsubs nd with
+          | HSeq, rs => cc_seq (ccf n') (re_of G MX n') rs K
+          | HSor, rs => ccf_sor (ccf n') (re_of G MX n') (nfol G MX n') rs K
+          | HPartial, [r1] => match re_of G MX n' r1 with
+                              | Some (R, _) => ccf n' r1 K && quot2 CF R K (Kx (nfol G MX n' r1) K)
+                              | None => false end
+          | HRep (S k), [r1] => match re_of G MX n' r1 with Some (R, _) => cc_rep (ccf n') r1 R (S k) K | None => false end
+          | HRepOpt (S k), [r1] => match re_of G MX n' r1 with Some (R, _) => ccf_repopt (ccf n') (nfol G MX n' r1) r1 R (S k) K | None => false end
+          | HRepMinMax (S mn0) mx, [r1] =>
+              let mn := S mn0 in
+              match re_of G MX n' r1 with
+              | Some (Chr cs, _) => noprefix cs K && ccf n' r1 Any
+                                    && cc_rep (ccf n') r1 (Chr cs) mn (Cat (pow (mx - mn) (Alt (Chr cs) Eps)) K)
+                                    && ccf_repopt (ccf n') None r1 (Chr cs) (mx - mn) K
+              | _ => false end
+          | _, _ => false
+          end
+        end
+      end
+    end
+  end.
 
 (* what cannot follow a successful match of r certified for the continuation K:
      not_at< r1 >   the rest does not start with a word of r1      (r1 is certified complete w.r.t. Any)
@@ -167,7 +251,7 @@ Fixpoint cc2_sor (sub subnr : rid -> re -> bool) (subre : rid -> option (re * bo
   | r :: rs' => match subre r, subs_re subre rs' with
                 | Some (R, _), Some l =>
                     let L := Cat (fa (map fst l)) K in
-                    sub r K && subnr r L && quot_auto CF R L (Kx2 (fol r K) K) && cc2_sor sub subnr subre fol rs' K
+                    sub r K && subnr r L && quot2 CF R L (Kx2 (fol r K) K) && cc2_sor sub subnr subre fol rs' K
                 | _, _ => false
                 end
   end.
@@ -185,7 +269,7 @@ Fixpoint nr_seq (subnr : rid -> re -> bool) (pur : rid -> bool) (subre : rid -> 
 
 (* one level of the two checks, over the checks of the level below (subc, subn) *)
 Definition cc2_step (subc subn : rid -> re -> bool) (n' : nat) (r : rid) (K : re) : bool :=
-    (old_frag (S n') r && is_none (nfol2 (S n') r K) && cc G MX (S n') r K) ||
+    (old_frag (S n') r && is_none (nfol2 (S n') r K) && ccf (S n') r K) ||
     match nth_error G r with
     | None => false
     | Some nd =>
@@ -197,32 +281,32 @@ Definition cc2_step (subc subn : rid -> re -> bool) (n' : nat) (r : rid) (K : re
         | HSor, rs => cc2_sor subc subn (re_of G MX n') (nfol2 n') rs K
         | HPartial, [r1] =>
             match re_of G MX n' r1 with
-            | Some (R, _) => subc r1 K && subn r1 K && quot_auto CF R K (Kx2 (nfol2 n' r1 K) K)
+            | Some (R, _) => subc r1 K && subn r1 K && quot2 CF R K (Kx2 (nfol2 n' r1 K) K)
             | None => false
             end
         | HStarPartial, [r1] =>
             match re_of G MX n' r1 with
             | Some (R, _) => let L := Cat (Star R) K in
-                             negb (nullable R) && subc r1 L && subn r1 L && quot_auto CF R L (Kx2 (nfol2 n' r1 L) L)
+                             negb (nullable R) && subc r1 L && subn r1 L && quot2 CF R L (Kx2 (nfol2 n' r1 L) L)
             | None => false
             end
         | HPlus, [r1] =>
             match re_of G MX n' r1 with
             | Some (R, _) => let L := Cat (Star R) K in
-                             negb (nullable R) && subc r1 L && subn r1 L && quot_auto CF R L (Kx2 (nfol2 n' r1 L) L)
+                             negb (nullable R) && subc r1 L && subn r1 L && quot2 CF R L (Kx2 (nfol2 n' r1 L) L)
             | None => false
             end
         | HIfMust dflt, [cnd; m] =>
             match re_of G MX n' cnd, re_of G MX n' m with
             | Some (Rc, _), Some (Rm, true) =>
                 subc cnd (Cat Rm K) && subc m K &&
-                (if dflt then subn cnd K && quot_auto CF Rc K (Kx2 (nfol2 n' cnd (Cat Rm K)) (Cat Rm K)) else true)
+                (if dflt then subn cnd K && quot2 CF Rc K (Kx2 (nfol2 n' cnd (Cat Rm K)) (Cat Rm K)) else true)
             | _, _ => false
             end
         | HMust, [r1] => subc r1 K
         | HNotAt, [r1] =>
             match re_of G MX n' r1 with
-            | Some (R1, _) => subc r1 Any && subn r1 K && quot_auto CF R1 K Empty
+            | Some (R1, _) => subc r1 Any && subn r1 K && quot2 CF R1 K Empty
             | None => false
             end
         | _, _ => false
